@@ -92,8 +92,8 @@ type zzC02L1Info struct{ root common.Hash }
 func (i zzC02L1Info) GetLatestFinalizedL1InfoRoot(ctx context.Context) (*treetypes.Root, *l1infotreesync.L1InfoTreeLeaf, error) {
 	return &treetypes.Root{Hash: i.root, Index: 7}, nil, nil
 }
-func (zzC02L1Info) GetFinalizedL1InfoTreeData(ctx context.Context) (treetypes.Proof, *l1infotreesync.L1InfoTreeLeaf, *treetypes.Root, error) {
-	return treetypes.Proof{}, nil, nil, errors.New("unused")
+func (i zzC02L1Info) GetFinalizedL1InfoTreeData(ctx context.Context) (treetypes.Proof, *l1infotreesync.L1InfoTreeLeaf, *treetypes.Root, error) {
+	return treetypes.Proof{}, &l1infotreesync.L1InfoTreeLeaf{L1InfoTreeIndex: 7}, &treetypes.Root{Hash: i.root, Index: 7}, nil
 }
 func (zzC02L1Info) GetProofForGER(ctx context.Context, ger, root common.Hash) (*l1infotreesync.L1InfoTreeLeaf, treetypes.Proof, error) {
 	return &l1infotreesync.L1InfoTreeLeaf{GlobalExitRoot: ger, L1InfoTreeIndex: 3}, treetypes.Proof{}, nil
@@ -101,6 +101,35 @@ func (zzC02L1Info) GetProofForGER(ctx context.Context, ger, root common.Hash) (*
 func (zzC02L1Info) CheckIfClaimsArePartOfFinalizedL1InfoTree(r *treetypes.Root, claims []bridgesync.Claim) error {
 	return nil
 }
+
+// zzC02Prover: the aggchain prover answers a request for (lastProvenBlock, requestedEndBlock] with a proof that ends at an
+// arbitrary block of that range (it may prove less than was asked for); it can also have nothing yet.
+type zzC02Prover struct{ l2 *zzC02L2 }
+
+func (p zzC02Prover) GenerateAggchainProof(ctx context.Context, req *types.AggchainProofRequest) (*types.AggchainProof, error) {
+	if req.RequestedEndBlock <= req.LastProvenBlock {
+		return nil, errors.New("empty range")
+	}
+	end := req.RequestedEndBlock
+	if zzverif.Bool("proverProvesLess") && req.RequestedEndBlock > req.LastProvenBlock+1 {
+		end = req.RequestedEndBlock - 1
+	}
+	return &types.AggchainProof{LastProvenBlock: req.LastProvenBlock, EndBlock: end, AggchainParams: zzverif.Hash("aggchainParams"),
+		SP1StarkProof: &types.SP1StarkProof{Version: "v", Proof: []byte{1}, Vkey: []byte{2}}}, nil
+}
+func (p zzC02Prover) GenerateOptimisticAggchainProof(req *types.AggchainProofRequest, sig []byte) (*types.AggchainProof, error) {
+	return nil, errors.New("unused")
+}
+
+type zzC02GERs struct{}
+
+func (zzC02GERs) GetInjectedGERsProofs(ctx context.Context, root *treetypes.Root, from, to uint64) (map[common.Hash]*agglayertypes.ProvenInsertedGERWithBlockNumber, error) {
+	return nil, nil
+}
+
+type zzC02OptMode struct{}
+
+func (zzC02OptMode) IsOptimisticModeOn() (bool, error) { return false, nil }
 
 type zzC02LER struct{ ler common.Hash }
 
@@ -317,13 +346,18 @@ func ZZVerif_C02_Loop() {
 	ag := &zzC02Agglayer{faults: faults, startLER: startLER, l2: l2}
 	l1 := zzC02L1Info{root: zzverif.Hash("l1InfoRoot")}
 	base := flows.NewBaseFlow(logger, l2, st, l1, &zzC02LER{ler: startLER}, flows.NewBaseFlowConfig(uint(zzverif.Param("MAXSIZE")), 0, false))
-	pp := flows.NewPPFlow(logger, base, st, l1, l2, zzC02Signer{}, false, 0)
+	var flow types.AggsenderFlow = flows.NewPPFlow(logger, base, st, l1, l2, zzC02Signer{}, false, 0)
+	if zzverif.Param("FLOW") == 1 {
+		// the aggchain-prover flow: same base flow, proofs from a model prover that may prove less than requested
+		flow = flows.NewAggchainProverFlow(logger, flows.NewAggchainProverFlowConfigDefault(), base, zzC02Prover{l2: l2}, st, l1, l2, zzC02GERs{}, nil,
+			zzC02Signer{}, zzC02OptMode{}, nil)
+	}
 	zzTickCh = make(chan time.Time, 1)
 	epochCh := make(chan types.EpochEvent, 1)
 	feeder := &zzC02Feeder{inner: statuschecker.NewCertStatusChecker(logger, st, ag, net), epoch: epochCh}
 	a := &AggSender{log: logger, epochNotifier: &zzC02Notifier{ch: epochCh}, storage: st, aggLayerClient: ag, certStatusChecker: feeder,
 		cfg:    config.Config{CheckStatusCertificateInterval: cfgtypes.Duration{Duration: time.Hour}, RetryCertAfterInError: retry, MaxRetriesStoreCertificate: 1},
-		status: &types.AggsenderStatus{}, rateLimiter: zzC02Rate{}, flow: pp, l2OriginNetwork: net}
+		status: &types.AggsenderStatus{}, rateLimiter: zzC02Rate{}, flow: flow, l2OriginNetwork: net}
 	feeder.feed()
 	a.sendCertificates(ctx, k)
 
